@@ -45,6 +45,23 @@ def function_body(src, header_re, what):
     raise TieError('unbalanced braces in ' + what)
 
 
+def function_body_tail(body, start_re):
+    """text of `body` after the block that follows the match of start_re"""
+    m = re.search(start_re, body)
+    if not m:
+        raise TieError('cannot find /%s/' % start_re)
+    i = body.index('{', m.end())
+    depth = 0
+    for j in range(i, len(body)):
+        if body[j] == '{':
+            depth += 1
+        elif body[j] == '}':
+            depth -= 1
+            if depth == 0:
+                return body[j + 1:]
+    raise TieError('unbalanced braces after /%s/' % start_re)
+
+
 def one(pattern, text, what, flags=re.S):
     m = re.findall(pattern, text, flags)
     if len(m) != 1:
@@ -116,8 +133,19 @@ def gen_runtime_state():
     esc = re.findall(r'if\s*\(max_allowed_state\s*<=\s*runtime_state::(\w+)\)\s*\{\s*max_allowed_state\s*=\s*runtime_state::(\w+);', sel)
     if len(esc) != 2:
         raise TieError('select_active_pu: escalation chain changed')
-    sel_fb = one(r'l\.owns_lock\(\)\s*&&\s*states_\[num_thread_local\]\s*<=\s*runtime_state::(\w+)\)', sel,
-                 'select_active_pu fallback acceptance')
+    # fallback walk (allow_fallback == true: re-queueing of a yielding / woken task with its own worker as hint): the
+    # comparison operator AND the constant of the acceptance test are regenerated (g_sel_fb_op, g_sel_fallback);
+    # Model/SuspendResumeYield.v evaluates the test with them
+    sel_fb_op, sel_fb = one(r'l\.owns_lock\(\)\s*&&\s*states_\[num_thread_local\]\s*(<=|<|==|>=|>|!=)\s*runtime_state::(\w+)\)', sel,
+                            'select_active_pu fallback acceptance')
+    if sel_fb not in order:
+        raise TieError('select_active_pu fallback acceptance: unknown runtime_state::%s' % sel_fb)
+    fb = function_body_tail(sel, r'if\s*\(\s*!allow_fallback\s*\)')
+    if not re.search(r'for\s*\(std::size_t\s+offset\s*=\s*0;\s*offset\s*<\s*states_size;\s*\+\+offset\)\s*\{\s*std::size_t\s+num_thread_local\s*=\s*'
+                     r'\(num_thread\s*\+\s*offset\)\s*%\s*states_size;\s*l\s*=\s*std::unique_lock<pu_mutex_type>\(pu_mtxs_\[num_thread_local\],\s*'
+                     r'std::try_to_lock\);\s*if\s*\(l\.owns_lock\(\)\s*&&\s*states_\[num_thread_local\]\s*(?:<=|<|==|>=|>|!=)\s*runtime_state::\w+\)\s*'
+                     r'\{\s*return\s+num_thread_local;\s*\}\s*\}\s*\}\s*return\s+num_thread;', fb):
+        raise TieError('select_active_pu: shape of the fallback walk changed (try every PU once from the hint, accept under the try_lock, else keep the hint)')
     if not re.search(r'if\s*\(l\.owns_lock\(\)\)\s*\{\s*if\s*\(states_\[num_thread_local\]\s*<=\s*max_allowed_state\)', sel):
         raise TieError('select_active_pu: acceptance test under the PU lock changed')
     # suspend_processing_unit_internal / _direct, resume_processing_unit_direct
@@ -182,6 +210,14 @@ def gen_runtime_state():
     L.append('Definition g_sel_esc2_if : rstate := rs_%s.' % esc[1][0])
     L.append('Definition g_sel_esc2 : rstate := rs_%s.' % esc[1][1])
     L.append('Definition g_sel_fallback : rstate := rs_%s.' % sel_fb)
+    L.append('(* comparison operators of the source; the fallback walk accepts PU v iff  states_[v] <g_sel_fb_op> g_sel_fallback *)')
+    L.append('Inductive cmpop := CmpLe | CmpLt | CmpEq | CmpGe | CmpGt | CmpNe.')
+    L.append('Definition cmp_eval (o : cmpop) (a b : rstate) : bool :=')
+    L.append('  match o with')
+    L.append('  | CmpLe => rs_le a b | CmpLt => rs_lt a b | CmpEq => rs_eqb a b')
+    L.append('  | CmpGe => rs_le b a | CmpGt => rs_lt b a | CmpNe => negb (rs_eqb a b)')
+    L.append('  end.')
+    L.append('Definition g_sel_fb_op : cmpop := %s.' % {'<=': 'CmpLe', '<': 'CmpLt', '==': 'CmpEq', '>=': 'CmpGe', '>': 'CmpGt', '!=': 'CmpNe'}[sel_fb_op])
     L.append('(* suspend_processing_unit_internal: CAS %s -> %s under the PU lock, then wait while == %s *)' % (cas[0], cas[1], spi_wait))
     L.append('Definition g_sus_from : rstate := rs_%s.' % cas[0])
     L.append('Definition g_sus_to : rstate := rs_%s.' % cas[1])
@@ -199,4 +235,5 @@ def gen_runtime_state():
     changed = gen.write_if_changed('GenRuntimeState.v', '\n'.join(L) + '\n')
     return {'file': 'coq/Gen/GenRuntimeState.v', 'enumerators': order, 'changed': changed,
             'can_exit': ' '.join(can_exit.split()),
-            'spu_refusal_returns': [bool(x) for x in guards]}
+            'spu_refusal_returns': [bool(x) for x in guards],
+            'fallback_acceptance': 'states_[v] %s runtime_state::%s' % (sel_fb_op, sel_fb)}
